@@ -8,10 +8,10 @@ import (
 
 // Decision is one resolved nondeterministic point on a path.
 type Decision struct {
-	N      int    `json:"n"`             // chosen alternative
-	Val    uint64 `json:"v,omitempty"`   // payload (concretised value)
-	Forced bool   `json:"f,omitempty"`   // no sibling exists
-	Kind   string `json:"k,omitempty"`   // br | ch | cz
+	N      int    `json:"n"`           // chosen alternative
+	Val    uint64 `json:"v,omitempty"` // payload (concretised value)
+	Forced bool   `json:"f,omitempty"` // no sibling exists
+	Kind   string `json:"k,omitempty"` // br | ch | cz
 	Label  string `json:"l,omitempty"`
 }
 
@@ -47,7 +47,7 @@ type Outcome struct {
 	Queries   int               `json:"queries"`
 	Asserts   map[string]int    `json:"asserts,omitempty"` // label -> times checked
 	Unknowns  int               `json:"unknowns,omitempty"`
-	SymAssert int               `json:"sym_asserts"`       // assertion queries that went to the solver
+	SymAssert int               `json:"sym_asserts"` // assertion queries that went to the solver
 	SymVars   int               `json:"sym_vars"`
 	Stubs     map[string]int    `json:"-"`
 	Funcs     map[string]int    `json:"-"`
